@@ -36,7 +36,7 @@ put("AUDIT", "| change | kind | property | reported by | first finding(s) | hist
 import collections
 def grp(n):
     b = n.split("/")[-1]
-    for g in ("indepB", "indepC", "indepD", "indep", "twin-of"):
+    for g in ("indepB", "indepC", "indepD", "indepE", "indep", "twin-of"):
         if b.startswith(g): return g
     return "hand-made"
 tot, al, names = collections.Counter(), collections.Counter(), []
@@ -47,8 +47,8 @@ for r in a["results"]:
             al[g] += 1; names.append("`%s` (%s)" % (r["name"].replace(".benign.diff", ""), ", ".join(sorted(set(x.split()[0] for v in r["findings"].values() for x in v)))[:60]))
 nbreak = sum(1 for r in a["results"] if r["kind"] != "benign" and r["status"] == "ran")
 nmiss = sum(1 for r in a["results"] if r["kind"] != "benign" and r["status"] == "ran" and r["property"] not in r["reported_by"])
-label = {"indep": "round 1 (helper extraction etc.)", "indepB": "round 2 (other kinds)", "indepC": "round 3 (free choice)", "indepD": "round 4 (free choice, after all of the above)", "twin-of": "benign twins of the round-5 and round-7 seeds", "hand-made": "hand-made variants"}
-rowsb = ["| %s | %d | %d |" % (label[g], tot[g], al[g]) for g in ("indep", "indepB", "indepC", "indepD", "twin-of", "hand-made")]
+label = {"indep": "round 1 (helper extraction etc.)", "indepB": "round 2 (other kinds)", "indepC": "round 3 (free choice)", "indepD": "round 4 (free choice, after all of the above)", "indepE": "round 5 (shape-changing refactorings, a later session)", "twin-of": "benign twins of the round-5 and round-7 seeds", "hand-made": "hand-made variants"}
+rowsb = ["| %s | %d | %d |" % (label[g], tot[g], al[g]) for g in ("indep", "indepB", "indepC", "indepD", "indepE", "twin-of", "hand-made")]
 put("BENIGNSTATE", "**State on the current tree and rule set** (`tools/audit.py`, summary by `tools/auditsum.py`): %d recorded breaking changes, %d not reported by their own property; %d behaviour-preserving changes, %d reported.\n\n| group | changes | still reported |\n|---|---|---|\n%s\n\nStill reported (each is a limit of a rule, not a defect of the tree; reasons below): %s." % (nbreak, nmiss, sum(tot.values()), sum(al.values()), "\n".join(rowsb), ", ".join(names)))
 put("RULECOV", "%d rules exist; %d of them are exercised by at least one recorded breaking change (seed or variant) that they report. Not exercised by a recorded patch: %s." % (len(ids), len(ids) - len(never), ", ".join(never) or "none"))
 open(ROOT + "/DESIGN.md", "w").write(s)
